@@ -432,6 +432,26 @@ func (e encEmitter) emit(tn, v *sx) {
 	}
 }
 
+// emitForce is emit with the given encoder switches (mask over encOptNames) forced on
+func (e encEmitter) emitForce(tn, v *sx, force int) {
+	g := e.g
+	T, V := tn.String(), v.String()
+	switch e.mode {
+	case "std":
+		g.Emit("mar", strconv.FormatUint(stdBits(), 10), T, V)
+	case "opt", "all":
+		base := g.R.Intn(512) | force
+		g.Emit("rt", strconv.FormatUint(encMask(base), 10), T, V)
+		g.Emit("rt", strconv.FormatUint(encMask(force), 10), T, V)
+	case "be":
+		if hasMultiMap(v) {
+			force |= 1
+		}
+		g.Emit("mar", strconv.FormatUint(stdBits(), 10), T, V)
+		g.Emit("mar", strconv.FormatUint(encMask(g.R.Intn(512)|force), 10), T, V)
+	}
+}
+
 func (e encEmitter) bits() string {
 	switch e.mode {
 	case "std":
@@ -595,6 +615,46 @@ func streamStrings(e encEmitter) {
 				e.emit(atomT("str"), listT("s", atomT(hexS(strings.Repeat(unit, n/len(unit))))))
 			}
 		}
+	}
+	// more than 4096 ill-formed bytes in ONE output (the ValidateString post-pass records at most 4096
+	// positions per scan and restarts), with well-formed bytes right behind the 4096k-th ill-formed one:
+	// one long string, thousands of short strings, map keys
+	if e.mode != "all" {
+		const vs = 1 << 5 // ValidateString
+		str := func(s string) *sx { return listT("s", atomT(hexS(s))) }
+		for _, k := range []int{4095, 4096, 4097, 8192, 8193} {
+			e.emitForce(atomT("str"), str(strings.Repeat("\x80", k)+"middle\xff"), vs)
+			e.emitForce(atomT("str"), str("head"+strings.Repeat("\xff", k)+"tail"), vs)
+		}
+		e.emitForce(atomT("str"), str(strings.Repeat("k\xffv", 4200)), vs)
+		e.emitForce(atomT("str"), str(strings.Repeat("\xe2\x80", 2048)+"<mid>"+strings.Repeat("\xc0z", 2100)), vs)
+		for _, n := range []int{4096, 4200, 8300} {
+			sl := listT("sl")
+			for i := 0; i < n; i++ {
+				sl.list = append(sl.list, str("k\xffv"))
+			}
+			e.emitForce(listT("sl", atomT("str")), sl, vs)
+		}
+		for _, n := range []int{4097, 4300} {
+			m := listT("map")
+			for i := 0; i < n; i++ {
+				m.list = append(m.list, &sx{isL: true, list: []*sx{str(fmt.Sprintf("k%05d\xffz", i)), listT("i", atomT("1"))}})
+			}
+			e.emitForce(listT("map", atomT("str"), atomT("int")), m, vs)
+		}
+		// the 4096k-th ill-formed byte ends a string: what follows is structure and a well-formed string
+		for _, k := range []int{4096, 8192} {
+			e.emitForce(listT("sl", atomT("str")), listT("sl", str(strings.Repeat("\x80", k)), str("valid tail"), str("z\xff")), vs)
+			e.emitForce(listT("st", listT("f", atomT("A"), atomT(tagHex("a")), atomT("str")), listT("f", atomT("B"), atomT(tagHex("b")), atomT("str")), listT("f", atomT("C"), atomT(tagHex("c")), atomT("str"))),
+				listT("st", str(strings.Repeat("\xff", k)), str("well-formed"), str("\xfe")), vs)
+		}
+		// a struct whose values and a later member together pass the boundary
+		st := listT("st", listT("f", atomT("A"), atomT(tagHex("a")), atomT("str")), listT("f", atomT("B"), atomT(tagHex("b")), listT("sl", atomT("str"))))
+		bs := listT("sl")
+		for i := 0; i < 200; i++ {
+			bs.list = append(bs.list, str("x\xfey"))
+		}
+		e.emitForce(st, listT("st", str(strings.Repeat("\xbf", 3990)), bs), vs)
 	}
 	for i := 0; i < g.N; i++ {
 		tn := shapes[g.R.Intn(len(shapes))]()
